@@ -103,6 +103,7 @@ def run_case(sh, s, d, case):
     hist = []             # dicts: conn, tm, bound(before tid), opened_at(len(snaps)), label
     trace = []
     packed_T = None
+    pack_Ts = []
     nontrivial = set()
     nops = rnd.choice([6, 10, 16])
 
@@ -139,10 +140,11 @@ def run_case(sh, s, d, case):
             if packed_T is not None and exp is not None:
                 # consequence of the pack-GC family recorded under C07: the differing objects were unreachable at the
                 # pack time and became reachable again later (through undo)
-                atT = expected(p64(u64(packed_T) + 1)) or {}
                 dif = [o for o in set(got) | set(exp) if got.get(o) != exp.get(o)]
-                if dif and all(o not in atT for o in dif):
-                    feat = ':object-unreachable-at-pack-time-relinked-later'
+                for Tp in pack_Ts:            # (any of the packs made: a later pack time says nothing about what an earlier pack dropped)
+                    atT = expected(p64(u64(Tp) + 1)) or {}
+                    if dif and all(o not in atT for o in dif):
+                        feat = ':object-unreachable-at-pack-time-relinked-later'
             sh.violation('c15:%s:historical-connection-reads-another-state%s' % (kind, feat),
                          {'label': h['label'], 'bound': h['bound'], 'trace': trace, 'matches_snapshot_index': later,
                           'expected_index': max([i for i, (t, sn) in enumerate(snaps) if t < h['bound']] or [-1]), 'reread': again}, case)
@@ -167,7 +169,7 @@ def run_case(sh, s, d, case):
         h['tm'].abort()
         return True
     for i in range(nops):
-        if based and i == nops // 2:
+        if based and i == nops // 2 and packed_T is None:      # (not behind a pack: its consequences keep the storage kind's name)
             for h in hist:
                 h['conn'].close()
             del hist[:]
@@ -294,6 +296,7 @@ def run_case(sh, s, d, case):
             try:
                 db.pack(TimeStamp(T).timeTime() + 0.0005)
                 packed_T = max(packed_T or T, T)
+                pack_Ts.append(T)
                 trace.append('pack')
             except Exception as e:
                 sh.note('pack_exceptions', type(e).__name__)
